@@ -18,11 +18,11 @@ const saslPkg = an.Module + "/sasl"
 
 // shape is the parsed form of a path (or file handle) term in package store (DESIGN §3 A5).
 type shape struct {
-	Kind  string // base tmpdir tmpfile userstem user entrystem entry entryname param other
-	User  *an.Term
-	Ext   string
-	Param string
-	Why   string
+	Kind        string // base tmpdir tmpfile userstem user entrystem entry entryname param other
+	User        *an.Term
+	Ext         string
+	Param       string
+	Why         string
 	ParamIsFile bool
 }
 
@@ -429,8 +429,8 @@ func (x *fsx) freeAtCreator(fn *ssa.Function, name string, isFile bool, depth in
 	}
 	var out []shape
 	found := false
-	for _, b := range parent.Blocks {
-		for _, in := range b.Instrs {
+	for _, in := range an.DeepInstrs(parent) {
+		{
 			mc, ok := in.(*ssa.MakeClosure)
 			if !ok || mc.Fn != fn {
 				continue
